@@ -533,6 +533,38 @@ BAD_DEFAULT_SCHEMAS = [
 ]
 
 
+# a NAME that the schema gives to a section used as a key (and the other way round), in the text and in
+# override specifiers; wildcard multikey defaults used by several sections / several loads
+NAME_CLASH_SCHEMA = ('<schema><sectiontype name="inner"><key name="level" datatype="integer" default="1"/></sectiontype>'
+                     '<sectiontype name="server"><key name="port" datatype="integer" default="80"/>'
+                     '<section type="inner" name="limits"/></sectiontype>'
+                     '<section type="server" name="main"/><key name="title"/></schema>')
+NAME_CLASH_CASES = [("title x\nmain on\n", []), ("<server main>\n  port 81\n  limits 10\n</server>\n", []),
+                    ("main on\n<server main/>\n", []), ("title x\n", ["main=on"]),
+                    ("<server main>\n</server>\n", ["main/limits=10"]), ("<server title>\n</server>\n", []),
+                    ("<inner main/>\n", []), ("", ["title/port=1"])]
+WILD_DEFAULTS_SCHEMA = ('<schema><sectiontype name="pool"><multikey name="+" attribute="limits" datatype="integer">'
+                        '<default key="soft">10</default><default key="soft">11</default><default key="hard">20</default>'
+                        '</multikey></sectiontype><sectiontype name="one"><key name="+" attribute="single" datatype="integer">'
+                        '<default key="a">1</default></key></sectiontype>'
+                        '<multisection type="pool" name="*" attribute="pools"/><multisection type="one" name="*" attribute="ones"/></schema>')
+WILD_DEFAULTS_TEXTS = ["<pool a/>\n<pool b/>\n", "<pool a>\n</pool>\n", "<pool a>\nsoft 5\n</pool>\n<pool b/>\n<pool c/>\n",
+                       "<pool a/>\n", "<one a/>\n<one b/>\n", "<one a>\nb 2\n</one>\n<one c/>\n"]
+
+
+def directed(col_ctx):
+    ZConfig = col_ctx.ZConfig
+    schema = ZConfig.loadSchemaFile(io.StringIO(NAME_CLASH_SCHEMA))
+    for n, (text, ovs) in enumerate(NAME_CLASH_CASES):
+        col_ctx.run("text", ("name-clash", n), {"schema_xml": NAME_CLASH_SCHEMA, "text": text, "overrides": ovs},
+                    ZConfig.loadConfigFile, schema, io.StringIO(text), overrides=list(ovs))
+    schema = ZConfig.loadSchemaFile(io.StringIO(WILD_DEFAULTS_SCHEMA))
+    for rnd in range(2):                      # the same schema object again: defaults are used a second time
+        for n, text in enumerate(WILD_DEFAULTS_TEXTS):
+            col_ctx.run("text", ("wild-defaults", rnd, n), {"schema_xml": WILD_DEFAULTS_SCHEMA, "text": text, "round": rnd},
+                        ZConfig.loadConfigFile, schema, io.StringIO(text))
+
+
 def bad_defaults(col_ctx):
     ZConfig = col_ctx.ZConfig
     for n, xml in enumerate(BAD_DEFAULT_SCHEMAS):
@@ -566,12 +598,15 @@ def run(tier, seed):
     import ZConfig as _Z
     c0 = Ctx(_Z)
     bad_defaults(c0)
+    directed(c0)
     col.merge(c0.col.partial())
     for part in pmap(_dispatch, items, chunksize=1):
         exempt += part.get("exempt", 0)
         col.merge(part)
     return col.result(
-        bound="6 directed schemas whose defaults cannot be converted x 5 texts; "
+        bound="6 directed schemas whose defaults cannot be converted x 5 texts; 8 texts / override lists that use "
+              "the name of a section as a key (and vice versa); wildcard-multikey defaults used by several sections "
+              "and by two rounds of loads of one schema object; "
               "10 corpus schemas x %d valid texts: ALL single-character "
               "deletions / duplications / transpositions and insertions of "
               "each of %d metacharacters at every offset, all token-level "
